@@ -278,10 +278,39 @@ theorem truncate_is_last_multiple (d t r : Int) : IsTruncation d t r ↔ r = doc
 theorem round_is_nearest_multiple (d t r : Int) : IsRounding d t r ↔ r = docRound d t :=
   ⟨isRounding_unique, fun h => h ▸ docRound_isRounding d t⟩
 
-/-- What `docTagNames` MEANS: the listed names (all tag keys under `*`) in sorted order — the one sorted permutation. -/
-theorem tagNames_is_sorted_listing (o : FromOpts) (tags : List (String × String)) (r : List String) :
-    IsSortedPermOf (if o.star then tags.map (·.1) else o.dims) r ↔ r = docTagNames o tags :=
-  ⟨fun h => sorted_perm_unique h (mergeSort_isSortedPerm _), fun h => h ▸ mergeSort_isSortedPerm _⟩
+/-- What `docTagNames` MEANS under `*`: all tag keys of the point in sorted order — the one sorted permutation. -/
+theorem tagNames_star_is_sorted_keys (o : FromOpts) (tags : List (String × String)) (r : List String) (hs : o.star = true) :
+    IsSortedPermOf (tags.map (·.1)) r ↔ r = docTagNames o tags := by
+  unfold docTagNames; simp only [hs, if_true]
+  exact ⟨fun h => sorted_perm_unique h (mergeSort_isSortedPerm _), fun h => h ▸ mergeSort_isSortedPerm _⟩
+
+/-- What `docTagNames` MEANS for listed names: the listed names in strictly increasing order — sorted, each ONCE however often
+the script repeats it, nothing else; there is one such list. (Before `fix:` 6ba92e9 a repeated name was kept twice:
+`old_duplicate_dimension_kept`.) -/
+theorem tagNames_is_sorted_listing (o : FromOpts) (tags : List (String × String)) (r : List String) (hs : o.star = false) :
+    IsSortedListingOf o.dims r ↔ r = docTagNames o tags := by
+  have hd : docTagNames o tags = C06.uniqueSorted (sortStrings o.dims) := by
+    unfold docTagNames; simp only [hs, Bool.false_eq_true, if_false]; rw [sortStrings_eq_mergeSort]
+  rw [hd]
+  exact ⟨fun h => sorted_listing_unique h (uniqueSorted_sort_isListing _), fun h => h ▸ uniqueSorted_sort_isListing _⟩
+
+/-- Counterexample about the code before `fix:` 6ba92e9: `from().groupBy('host','dc','host')` stamped the dimension list
+dc, host, host — not a listing of the named dimensions (host twice), and a different group id spelling than `groupBy('dc','host')`. -/
+theorem old_duplicate_dimension_kept :
+    let o : FromOpts := { dims := ["host", "dc", "host"] }
+    o.determineTagNamesOld.2 = ["dc", "host", "host"] ∧ o.determineTagNames.2 = ["dc", "host"] ∧
+    ¬ IsSortedListingOf o.dims o.determineTagNamesOld.2 := by
+  refine ⟨by decide, by decide, ?_⟩
+  intro h
+  have := h.1
+  simp only [FromOpts.determineTagNamesOld] at this
+  have h2 : (["dc", "host", "host"] : List String).Pairwise (· < ·) := by
+    have e : sortStrings ["host", "dc", "host"] = ["dc", "host", "host"] := by decide
+    rw [e] at this; exact this
+  have : ("host" : String) < "host" := by
+    have := List.pairwise_cons.mp (List.Pairwise.of_cons h2)
+    exact this.1 "host" (List.mem_cons_self ..)
+  exact String.lt_irrefl _ this
 
 /-- **Shallow-copy discipline.** The stream node (and a parent from-node) hands ONE message to all its children, `forkPoint` hands
 it to all subscribed tasks. Whatever the children are and in whatever order they run, each forwards exactly what it would forward
@@ -397,10 +426,15 @@ example :
       [⟨1, "cpu", "d", "autogen", [("host", "a"), ("dc", "x")], [("v", 4)], 1699999997000000000, false, []⟩] := by decide
 
 example : IsTruncation 7000000000 1700000000300000000 1699999997000000000 ∧ IsRounding 1000000000 1700000001500000000 1700000002000000000 ∧
-    IsSortedPermOf ["zone", "host"] ["host", "zone"] := by
-  refine ⟨by decide, by decide, ?_, ?_⟩
+    IsSortedPermOf ["zone", "host"] ["host", "zone"] ∧ IsSortedListingOf ["zone", "host", "zone"] ["host", "zone"] := by
+  refine ⟨by decide, by decide, ⟨?_, ?_⟩, ⟨?_, ?_⟩⟩
   · decide
   · exact List.Perm.swap _ _ _
+  · refine List.pairwise_cons.mpr ⟨?_, List.pairwise_singleton _ _⟩
+    intro x hx; rw [List.mem_singleton.mp hx]; decide
+  · intro t; simp only [List.mem_cons, List.not_mem_nil, or_false]; constructor
+    · rintro (h | h) <;> simp [h]
+    · rintro (h | h | h) <;> simp [h]
 
 /-- `forwarded_point_depends_on_own_chain_only` is not vacuous: node #1 is off the chain of #2 (= {2, 0}). -/
 example : onChain [({} : From), {}, { parent := some 0 }] 3 2 1 = false ∧ onChain [({} : From), {}, { parent := some 0 }] 3 2 0 = true := by
